@@ -18,6 +18,10 @@ if sys.path[0] != SRC:
     sys.path.insert(0, SRC)
 os.environ.setdefault("MPLBACKEND", "Agg")
 
+import warnings  # noqa: E402
+
+warnings.showwarning = lambda *a, **k: None  # the deprecated-decorator re-enables DeprecationWarning on every call
+
 import pytestarch  # noqa: E402
 
 assert os.path.realpath(pytestarch.__file__).startswith(os.path.realpath(SRC)), (
